@@ -73,22 +73,22 @@ func plan0(prop, tier string) []phase {
 	switch prop {
 	case "C04":
 		if q {
-			return []phase{{Part: "", Race: false, Runs: 12000, MaxWall: 100 * time.Second}}
+			return []phase{{Part: "", Race: false, Runs: 20000, MaxWall: 100 * time.Second}}
 		}
 		return []phase{{Part: "", Race: false, Runs: 1500000, MaxWall: 25 * time.Minute}}
 	case "C12":
 		if q {
-			return []phase{{Part: "", Race: false, Runs: 20000, MaxWall: 100 * time.Second}}
+			return []phase{{Part: "", Race: false, Runs: 60000, MaxWall: 100 * time.Second}}
 		}
 		return []phase{{Part: "", Race: false, Runs: 3000000, MaxWall: 25 * time.Minute}}
 	case "C05":
 		if q {
-			return []phase{{Part: "", Race: false, Runs: 3000, MaxWall: 60 * time.Second}, {Part: "", Race: true, Runs: 1500, MaxWall: 100 * time.Second}}
+			return []phase{{Part: "", Race: false, Runs: 5000, MaxWall: 60 * time.Second}, {Part: "", Race: true, Runs: 2000, MaxWall: 100 * time.Second}}
 		}
 		return []phase{{Part: "", Race: false, Runs: 600000, MaxWall: 12 * time.Minute}, {Part: "", Race: true, Runs: 250000, MaxWall: 18 * time.Minute}}
 	case "C16":
 		if q {
-			return []phase{{Part: "H", Race: false, Runs: 20000, MaxWall: 40 * time.Second}, {Part: "G", Race: false, Runs: 10000, MaxWall: 50 * time.Second}, {Part: "G", Race: true, Runs: 3000, MaxWall: 80 * time.Second}}
+			return []phase{{Part: "H", Race: false, Runs: 60000, MaxWall: 40 * time.Second}, {Part: "G", Race: false, Runs: 30000, MaxWall: 50 * time.Second}, {Part: "G", Race: true, Runs: 8000, MaxWall: 80 * time.Second}}
 		}
 		return []phase{{Part: "H", Race: false, Runs: 3000000, MaxWall: 8 * time.Minute}, {Part: "G", Race: false, Runs: 1500000, MaxWall: 10 * time.Minute}, {Part: "G", Race: true, Runs: 400000, MaxWall: 15 * time.Minute}}
 	}
@@ -745,6 +745,12 @@ func writeEvidence(prop, tier string, seed uint64, executed uint64, nontriv map[
 	for _, s := range samples {
 		var v interface{}
 		json.Unmarshal(s, &v)
+		if m, ok := v.(map[string]interface{}); ok {
+			if sc, ok := m["sched"].([]interface{}); ok && len(sc) > 60 {
+				m["sched"] = sc[:60]
+				m["sched_note"] = fmt.Sprintf("explicit schedule [task, points, ...] truncated here to 30 of %d segments", len(sc)/2)
+			}
+		}
 		smp = append(smp, v)
 	}
 	cov := map[string]interface{}{
